@@ -110,5 +110,5 @@ PARTS = [
     Part("clausius-clapeyron", latent_strategy, check_latent, {"quick": 20000, "thorough": 400000},
          floor={"quick": 5000, "thorough": 50000}),
     Part("cooling-heat", cooling_strategy, check_cooling, {"quick": 16000, "thorough": 300000},
-         floor={"quick": 4000, "thorough": 50000}),
+         floor={"quick": 2500, "thorough": 40000}),
 ]
